@@ -632,6 +632,37 @@ pub fn t_try_hammer(rng: &mut Rng, profile: &'static str, run_seed: u64, miri: b
     prog
 }
 
+/// C09 (also C08/C01): try_sync keeps arriving while a future_sync operation of the same object is cancelled in the middle of its
+/// body (its future dropped while the body is suspended on a gate). The body is still executing until its destructor has run (the
+/// span ends there, a little later under noise): a try_sync that gets in before that has not had exclusive access.
+pub fn t_try_vs_cancel(rng: &mut Rng, profile: &'static str, run_seed: u64, miri: bool) -> Program {
+    let mut prog = Program::new(run_seed, profile, "try_sync_vs_cancelled_future_sync");
+    prog.pool = *rng.pick(&[1usize, 1, 2, 3]);
+    prog.pool_mode = *rng.pick(&[PoolMode::Warm, PoolMode::Fresh]);
+    prog.n_obj = 1;
+    let mut t0 = vec![];
+    let mut started = vec![];
+    for _ in 0..rng.range(1, if miri { 1 } else { 3 }) {
+        if rng.chance(1, 3) { let id = prog.add_op(0, Kind::Desync, Disp::None, vec![Step::Touch]); t0.push(TAct::Op(id)); }
+        let g = prog.new_gate();
+        let mut body = vec![Step::Touch, Step::Gate(g), Step::Touch];
+        if rng.chance(1, 2) { body.push(Step::Retain); }
+        let id = prog.add_op(0, Kind::FutSync, Disp::PollDrop(rng.range(1, 3) as u8), body);
+        t0.push(TAct::Op(id));
+        started.push(id);
+        if rng.chance(1, 3) { let id = prog.add_op(0, Kind::Desync, Disp::None, vec![Step::Touch]); t0.push(TAct::Op(id)); }
+    }
+    prog.threads.push(t0);
+    for _ in 0..rng.range(1, if miri { 1 } else { 2 }) {
+        let mut acts = vec![TAct::WaitStart(started[0])];
+        for _ in 0..rng.range(3, if miri { 5 } else { 14 }) { let id = prog.add_op(0, Kind::TrySync, Disp::None, vec![Step::Touch]); acts.push(TAct::Op(id)); }
+        prog.threads.push(acts);
+    }
+    // the gates stay closed until the futures have been dropped in most runs: the firer opens them at the end, as always
+    finish_firer(rng, &mut prog, 0);
+    prog
+}
+
 /// C09/C14/C01: try_sync keeps arriving while suspended future operations of the same object (each holding its borrow of the
 /// value across the suspension) are being woken: every wake-up passes through "queue released, not yet rescheduled"
 pub fn t_try_wake_window(rng: &mut Rng, profile: &'static str, run_seed: u64, miri: bool) -> Program {
@@ -828,6 +859,37 @@ pub fn t_pipe_chain(rng: &mut Rng, profile: &'static str, run_seed: u64, miri: b
     prog
 }
 
+/// C13: one thread suspends the object (awaiting the request itself, so that its own poll drains the queue up to the suspension
+/// point when no pool thread does); once the suspension is in effect, two or three other threads call `sync` on it - held work -
+/// and when all of them are inside their calls the suspending thread uses or drops the resumer. With no pool thread (or few) the
+/// waiting callers have to pass the queue on among themselves: every one of the calls must return, in call order.
+pub fn t_suspend_waiters(rng: &mut Rng, profile: &'static str, run_seed: u64, miri: bool) -> Program {
+    let mut prog = Program::new(run_seed, profile, "suspend_with_sync_waiters");
+    prog.pool = *rng.pick(&[0usize, 0, 0, 1, 2]);
+    prog.pool_mode = *rng.pick(&[PoolMode::Warm, PoolMode::Warm, PoolMode::Fresh]);
+    prog.n_obj = 1;
+    let mut a = vec![];
+    for _ in 0..rng.below(3) { let id = prog.add_op(0, Kind::Desync, Disp::None, vec![Step::Touch]); a.push(TAct::Op(id)); }
+    let s = prog.add_op(0, Kind::Suspend, Disp::Await, vec![]);
+    a.push(TAct::Op(s));
+    let nw = rng.range(2, if miri { 2 } else { 3 }) as usize;
+    let mut waiters = vec![];
+    for _ in 0..nw {
+        let mut acts = vec![TAct::WaitResolved(s)];
+        if rng.chance(1, 3) { let id = prog.add_op(0, Kind::Desync, Disp::None, vec![Step::Touch]); acts.push(TAct::Op(id)); }
+        let id = prog.add_op(0, Kind::Sync, Disp::None, if rng.chance(1, 2) { vec![Step::Touch, Step::Pause, Step::Touch] } else { vec![Step::Touch] });
+        acts.push(TAct::Op(id));
+        a.push(TAct::WaitInv(id));
+        if rng.chance(1, 3) { let id = prog.add_op(0, Kind::Desync, Disp::None, vec![Step::Touch]); acts.push(TAct::Op(id)); }
+        waiters.push(acts);
+    }
+    a.push(TAct::Resume(s, rng.chance(2, 3)));
+    prog.threads.push(a);
+    for w in waiters { prog.threads.push(w); }
+    finish_firer(rng, &mut prog, 10);
+    prog
+}
+
 // ---------------------------------------------------------------------------------------------
 
 /// Asserts the legitimacy rules on a generated program (a failure here is a generator bug, never a violation)
@@ -847,7 +909,7 @@ pub fn validate(prog: &Program) -> Result<(), String> {
                     if d.kind == Kind::FutSync && d.disp == Disp::Hold { open_fs.push(*o); }
                     if d.kind == Kind::Suspend && d.disp == Disp::Await { open_res.push(*o); }
                     if prog.pool == 0 && matches!(d.disp, Disp::PollDrop(_)) { return Err(format!("op {}: poll-then-drop with no pool thread", o)); }
-                    if prog.pool == 0 && prog.threads.len() > 1 && prog.pipes.is_empty() && (matches!(d.disp, Disp::Await | Disp::Hold) || d.kind == Kind::FutSync || d.kind == Kind::Suspend) && !prog.hold_phase {
+                    if prog.pool == 0 && prog.threads.len() > 1 && prog.pipes.is_empty() && (matches!(d.disp, Disp::Await | Disp::Hold) || d.kind == Kind::FutSync || d.kind == Kind::Suspend) && !prog.hold_phase && prog.template != "suspend_with_sync_waiters" {
                         return Err(format!("op {}: awaiting with no pool thread and several contexts", o));
                     }
                 }
@@ -859,7 +921,7 @@ pub fn validate(prog: &Program) -> Result<(), String> {
                 TAct::Resume(o, _) | TAct::HandResumer(o) => { open_res.retain(|x| x != o); }
                 TAct::ReleaseMortal | TAct::PanicRelease => { if nb_only { return Err(format!("thread {} drops its owner inside a non-blocking window", t)); } released = true; }
                 TAct::PipeCreate(_) | TAct::Consume(..) => { if nb_only { return Err("pipe act in non-blocking window".into()); } }
-                TAct::DropStream(_) | TAct::Push(_) | TAct::Attempt(..) | TAct::AttemptJoin(_) | TAct::Stash(_) | TAct::WaitStart(_) | TAct::WaitRet(_) | TAct::Checkpoint | TAct::FireStashedWakers => {}
+                TAct::DropStream(_) | TAct::Push(_) | TAct::Attempt(..) | TAct::AttemptJoin(_) | TAct::Stash(_) | TAct::WaitStart(_) | TAct::WaitRet(_) | TAct::WaitInv(_) | TAct::WaitResolved(_) | TAct::Checkpoint | TAct::FireStashedWakers => {}
             }
         }
         if !open_fs.is_empty() || !open_res.is_empty() { return Err(format!("thread {} ends with open future_sync/resumer", t)); }
@@ -889,7 +951,7 @@ pub fn generate(profile: &'static str, rng: &mut Rng, run_seed: u64, miri: bool)
     match profile {
         "C03" => if r < 45 { t_dormant(rng, profile, run_seed, miri) } else { mixed(rng, profile, &cfg, run_seed) },
         "C04" => if r < 35 { t_multisync(rng, profile, run_seed, miri) } else if r < 55 { t_holds(rng, profile, run_seed, miri, true) } else if r < 62 { t_stale_thread_waker(rng, profile, run_seed, miri) } else if r < 68 && !miri { t_nested_sync_in_stolen_queue(rng, profile, run_seed, miri) } else { mixed(rng, profile, &cfg, run_seed) },
-        "C09" => if r < 25 { t_try_block(rng, profile, run_seed, miri) } else if r < 45 { t_try_hammer(rng, profile, run_seed, miri) } else if r < 55 { t_try_wake_window(rng, profile, run_seed, miri) } else if r < 63 { t_stale_thread_waker(rng, profile, run_seed, miri) } else { mixed(rng, profile, &cfg, run_seed) },
+        "C09" => if r < 22 { t_try_block(rng, profile, run_seed, miri) } else if r < 40 { t_try_hammer(rng, profile, run_seed, miri) } else if r < 50 { t_try_wake_window(rng, profile, run_seed, miri) } else if r < 58 { t_stale_thread_waker(rng, profile, run_seed, miri) } else if r < 68 { t_try_vs_cancel(rng, profile, run_seed, miri) } else { mixed(rng, profile, &cfg, run_seed) },
         "C10" => if r < 25 && !miri { t_raise(rng, profile, run_seed, miri) } else if r < 35 && !miri { t_despawn_while_blocked(rng, profile, run_seed, miri) } else { t_holds(rng, profile, run_seed, miri, false) },
         "C11" => if r < 12 { t_pipe_chain(rng, profile, run_seed, miri) } else { t_pipe(rng, profile, run_seed, miri, false, false) },
         "C12" => t_pipe(rng, profile, run_seed, miri, true, false),
@@ -902,6 +964,7 @@ pub fn generate(profile: &'static str, rng: &mut Rng, run_seed: u64, miri: bool)
         "C14" => if r < 10 { t_pipe(rng, profile, run_seed, miri, true, false) } else if r < 20 { t_pipe(rng, profile, run_seed, miri, false, false) } else if r < 30 { t_holds(rng, profile, run_seed, miri, true) } else if r < 42 { t_try_wake_window(rng, profile, run_seed, miri) } else if r < 52 { t_stale_thread_waker(rng, profile, run_seed, miri) } else if r < 58 { t_retain(rng, profile, run_seed, miri) } else if r < 60 { t_drop_held_future(rng, profile, run_seed, miri) } else if r < 66 && !miri { t_nested_sync_in_stolen_queue(rng, profile, run_seed, miri) } else { mixed(rng, profile, &cfg, run_seed) },
         "C01" => if r < 8 { t_pipe(rng, profile, run_seed, miri, false, false) } else if r < 16 { t_pipe(rng, profile, run_seed, miri, true, false) } else if r < 24 { t_try_wake_window(rng, profile, run_seed, miri) } else if r < 30 { t_stale_thread_waker(rng, profile, run_seed, miri) } else if r < 36 { t_retain(rng, profile, run_seed, miri) } else { mixed(rng, profile, &cfg, run_seed) },
         "C06" if r < 8 => t_stale_thread_waker(rng, profile, run_seed, miri),
+        "C13" => if r < 30 { t_suspend_waiters(rng, profile, run_seed, miri) } else { mixed(rng, profile, &cfg, run_seed) },
         _ => mixed(rng, profile, &cfg, run_seed),
     }
 }
